@@ -20,3 +20,15 @@ func Verif_C11_alloc() {
 	V.Assert(i1 != i3, "C11/ranges-disjoint-13")
 	V.Reach("end")
 }
+
+// Verif_C14_alloc: two goroutines allocating identifier ranges at once: no race, ranges disjoint.
+func Verif_C14_alloc() {
+	curPacketID.Store(V.U32("counter"))
+	done := make(chan uint16, 2)
+	go func() { done <- AllocPacketID(30) }()
+	go func() { done <- AllocPacketID(30) }()
+	a, b := <-done, <-done
+	d := a - b
+	V.Assert(V.Any(d == 30, d == 0xffff-29), "C11/concurrent-ranges-disjoint")
+	V.Reach("end")
+}
